@@ -411,6 +411,15 @@ func verifBodyC16(s *verifEngC, gc *check.C) {
 			d = time.Duration(c.Draw("step-after-restart-min", 120)) * time.Minute
 		}
 		_ = storeDown
+		// read-only queries (GET /v2/system-info, snap refresh --time) may arrive at any time
+		if c.Draw("status-query", 3) == 2 {
+			st.Lock()
+			mgr.RefreshSchedule()
+			mgr.NextRefresh()
+			mgr.LastRefresh()
+			st.Unlock()
+			c.Count("probe:read-only-status-query")
+		}
 		time.Sleep(d)
 	}
 }
